@@ -75,15 +75,19 @@ enter(const void* dev, const char* what)
 }
 
 // --------------------------------------------------------------------------------- camera
-static DeviceStatusCode
-cam_set(Camera* c, CameraProperties* s)
+// Shape of frame k of the current run (k = ~0: the configured shape).  With CamScript::vary the
+// width shrinks by 0..vary pixels from frame to frame, so consecutive frames have different sizes.
+static void
+shape_for_frame(Instance* i, uint64_t k)
 {
-    Instance* i = enter(c, "camera.set");
-    if (!i)
-        return Device_Err;
-    i->props = *s;
+    SampleType t = i->shape.type;
+    uint32_t w = i->base_w, h = i->base_h;
+    int vary = hub.cam_script[i->idx].vary;
+    if (k != ~0ull && vary > 0 && w > 1) {
+        uint32_t cut = (uint32_t)(vh_mix64(k * 0x9e3779b97f4a7c15ull + 17) % (uint64_t)(vary + 1));
+        w = w > cut ? w - cut : 1;
+    }
     memset(&i->shape, 0, sizeof i->shape);
-    uint32_t w = s->shape.x ? s->shape.x : 1, h = s->shape.y ? s->shape.y : 1;
     i->shape.dims.channels = 1;
     i->shape.dims.width = w;
     i->shape.dims.height = h;
@@ -92,6 +96,20 @@ cam_set(Camera* c, CameraProperties* s)
     i->shape.strides.width = 1;
     i->shape.strides.height = w;
     i->shape.strides.planes = (int64_t)w * h;
+    i->shape.type = t;
+}
+
+static DeviceStatusCode
+cam_set(Camera* c, CameraProperties* s)
+{
+    Instance* i = enter(c, "camera.set");
+    if (!i)
+        return Device_Err;
+    i->props = *s;
+    i->base_w = s->shape.x ? s->shape.x : 1;
+    i->base_h = s->shape.y ? s->shape.y : 1;
+    i->shape.type = s->pixel_type;
+    shape_for_frame(i, ~0ull);
     i->shape.type = s->pixel_type;
     ev(i, "set");
     return Device_Ok;
@@ -139,6 +157,7 @@ cam_start(Camera* c)
     i->starts++;
     i->run = hub.cam_runs[i->idx]++;
     i->k = i->calls = i->hw = 0;
+    shape_for_frame(i, 0);
     i->stop_requested = false;
     i->triggers = 0;
     clock_init(&i->pace);
@@ -161,6 +180,7 @@ cam_stop(Camera* c)
     i->stops++;
     i->stop_requested = true;
     lock_release(&i->lock);
+    shape_for_frame(i, ~0ull); // idle: the configured shape again
     condition_variable_notify_all(&i->cond);
     return Device_Ok;
 }
@@ -229,6 +249,7 @@ cam_get_frame(Camera* c, void* im, size_t* nbytes, ImageInfo* info)
     info->hardware_timestamp = stamp(i->idx, i->run, i->k);
     i->delivered.push_back(Delivered{ i->run, i->k, info->hardware_frame_id, i->shape, vsim::now_ns() });
     i->k++;
+    shape_for_frame(i, i->k);
     *nbytes = need;
     return Device_Ok;
 }
